@@ -1,8 +1,7 @@
 /-
 C12  Constant folding equals circuit evaluation.
 
-FULL STATEMENT (`C12_fold_eq_circuit`, NOT provable for the code as it is — see
-the witnesses below):
+FULL STATEMENT (without hypotheses NOT provable for the code as it is — see the witnesses):
 
     for every operator in {+,-,*,/,%,&,|,^,&^,<<,>>,<,<=,>,>=,==,!=,unary -,!},
     signedness, width N in 1..130 and operand values a, b representable in
@@ -11,19 +10,27 @@ the witnesses below):
         = circuitOp op (enc a) (enc b)       (the run-time instruction)
     and folding never crashes the compiler.
 
-What is proved instead (everything about `Model/Fold.lean` + `Model/Mpa.lean`,
-which the check ties to the real compiler line by line on every run):
+What is proved (everything about `Model/Fold.lean` + `Model/Mpa.lean`, which
+the check ties to the real compiler line by line on every run):
 
-  * per operator a `_partial` theorem at full generality in the width
-    n ≤ 64, the operand constants (arbitrary `ssa.Value`s, not only the ones
-    the generator writes) and the values, under an explicit hypothesis that
-    names what the small path needs beyond "representable";
-  * `C12_fold_eq_circuit_partial`: the same, packaged over the decidable
+  * `C12_fold_eq_circuit`: the summary theorem over the whole integer operator
+    set, both signednesses, EVERY width (small path n ≤ 64 on `BitVec 64`,
+    large path n > 64 at the level "result = (x op y) mod 2^N"), arbitrary
+    operand constants.  Its non-typing hypotheses (`h_image h_divmod h_shr
+    h_cmp`) are exactly the open value-level root causes of known_findings.json;
+    `+ - * & | ^ &^ << unary-` need none of them on the small path and only
+    `h_image` on the large path (`C12_fold_wrap_every_width`,
+    `C12_fold_{add,sub,mul,and,or,xor,andnot,shl}_every_width`);
+  * `C12_fold_eq_circuit_partial` / `_wide`: the same over the decidable
     predicate `hyps` that the check evaluates for every generated case — an
     oracle failure inside the region `hyps = []` cannot be a known finding;
+  * the per-operator small-path theorems (`C12_fold_wrap_ops`, `C12_fold_add`,
+    `C12_fold_shl`, `C12_fold_shr_partial`, `C12_fold_div_mod_partial`,
+    `C12_fold_cmp_partial`, `C12_fold_neg`, `C12_fold_bool_ops`) and the
+    large-path lemmas of Proofs/Fold.lean (`fold_wrap_wide`, `fold_shl_wide`,
+    `fold_neg_wide`, `fold_cmp_all`, `fold_shr_wide`, `fold_div_mod_wide`);
   * `C12_text_wrap_nonneg`, `C12_text_div_mod_nonneg`: end to end on the
-    program text `T(a) op T(b)` for ALL non-negative representable a, b
-    (the operands as the lexer / Generator.Constant / Call.Eval build them);
+    program text `T(a) op T(b)` for ALL non-negative representable a, b, N ≤ 64;
   * for every hypothesis a concrete witness (closed computation on the model,
     replayed on the Go code by `c12 one -extra "<op> <s|u> <n> <a> <b> <aform> <bform>"`)
     showing that the full statement fails without it;
@@ -31,10 +38,10 @@ which the check ties to the real compiler line by line on every run):
     (`C12_crash_wide_old_witness`: before repo d31d09e `uint128(5)+uint128(7)`
     crashed the compiler).
 
-Not covered by theorems: widths above 64 (large path; model correspondence and
-oracle only) and consumers other than `return` (oracle only; the witnesses
-`C12_result_type_widened_witness` and `C12_refold_shr_witness` show the two
-ways a consumer sees more than the low N bits).
+Not covered by theorems: consumers other than `return` (oracle only; the
+witnesses `C12_result_type_widened_witness`, `C12_result_minbits_witness` and
+`C12_refold_shr_witness` show how a consumer sees more than the low N bits) and
+an end-to-end text-level statement for negative operand forms / N > 64.
 -/
 import MpcVerif.Proofs.Fold
 
@@ -294,19 +301,123 @@ theorem C12_fold_bool_ops (a b : Bool) :
 
 /-! ## The region the check treats as proved -/
 
-theorem hypsWide_ne_nil (op : Op) (signed : Bool) (n : Nat) (l r : CV) : hypsWide op signed n l r ≠ [] := by
-  unfold hypsWide
-  cases op <;> simp only [] <;> first | (split <;> simp) | simp
-
 theorem ite_nil {name : String} {ok : Bool} (h : (if ok = true then ([] : List String) else [name]) = []) :
     ok = true := by
   cases ok <;> simp at h ⊢
+
+theorem typesWide_spec {op : Op} {n : Nat} {l r : CV} (h : typesWide op n l r = true) :
+    ∃ lt lv rt rv, l = .int lt lv ∧ r = .int rt rv ∧ 64 < lt.bits ∧ n ≤ lt.bits ∧
+      (op.isShift = true ∨ op = .neg ∨ n ≤ rt.bits) := by
+  cases l with
+  | bool b => simp [typesWide] at h
+  | int lt lv =>
+    cases r with
+    | bool b => simp [typesWide] at h
+    | int rt rv =>
+      simp only [typesWide, decide_eq_true_eq] at h
+      exact ⟨lt, lv, rt, rv, rfl, rfl, h.1, h.2.1, h.2.2⟩
+
+/-- The large-path half of `C12_fold_eq_circuit_partial`. -/
+theorem C12_fold_eq_circuit_wide (op : Op) (signed : Bool) (n : Nat) (l r : CV) (cnt : BitVec 64)
+    (hcov : hypsWide op signed n l r = [])
+    (hcnt : op.isShift = true → (mpaOf r).int64 = some cnt) :
+    (op.isCmp = true → foldOp op l r = .ok (.bool (circuitCmp op signed (seenBV n l) (seenBV n r)))) ∧
+    (op.isCmp = false → ∃ t v, foldOp op l r = .ok (.int t v) ∧
+        seenBV n (.int t v) = circuitOp op signed (seenBV n l) (seenBV n r) cnt.toNat) := by
+  unfold hypsWide at hcov
+  simp only [List.append_eq_nil_iff] at hcov
+  obtain ⟨hty, hrest⟩ := hcov
+  obtain ⟨lt, lv, rt, rv, rfl, rfl, hL, hnl, hnr⟩ := typesWide_spec (ite_nil hty)
+  have wrap : ∀ o : Op, o.isWrap = true → o = op →
+      (imageExact (.int lt lv) && imageExact (.int rt rv)) = true → sameKind (.int lt lv) (.int rt rv) = true →
+      (op.isCmp = true → foldOp op (.int lt lv) (.int rt rv) =
+          .ok (.bool (circuitCmp op signed (seenBV n (.int lt lv)) (seenBV n (.int rt rv))))) ∧
+      (op.isCmp = false → ∃ t v, foldOp op (.int lt lv) (.int rt rv) = .ok (.int t v) ∧
+        seenBV n (.int t v) = circuitOp op signed (seenBV n (.int lt lv)) (seenBV n (.int rt rv)) cnt.toNat) := by
+    intro o ho heq hi hk
+    subst heq
+    simp only [Bool.and_eq_true] at hi
+    have hk' : lt.kind = rt.kind := by simpa [sameKind] using hk
+    have hnr' : n ≤ rt.bits := by
+      rcases hnr with h | h | h
+      · cases o <;> simp [Op.isWrap, Op.isShift] at ho h
+      · subst h; simp [Op.isWrap] at ho
+      · exact h
+    refine ⟨fun h => ?_, fun _ => ?_⟩
+    · cases o <;> simp [Op.isWrap, Op.isCmp] at ho h
+    · obtain ⟨t, v, h1, _, _, _, h5⟩ := fold_wrap_wide o ho signed n cnt.toNat lt rt lv rv hk' hL hnl hnr' hi.1 hi.2
+      have hne : o ≠ .neg := by intro h; subst h; simp [Op.isWrap] at ho
+      exact ⟨t, v, by simp [foldOp, hne, h1], h5⟩
+  have cmpc : ∀ o : Op, o.isCmp = true → o = op → cmpAgrees signed n (.int lt lv) (.int rt rv) = true →
+      (op.isCmp = true → foldOp op (.int lt lv) (.int rt rv) =
+          .ok (.bool (circuitCmp op signed (seenBV n (.int lt lv)) (seenBV n (.int rt rv))))) ∧
+      (op.isCmp = false → ∃ t v, foldOp op (.int lt lv) (.int rt rv) = .ok (.int t v) ∧
+        seenBV n (.int t v) = circuitOp op signed (seenBV n (.int lt lv)) (seenBV n (.int rt rv)) cnt.toNat) := by
+    intro o ho heq hc
+    subst heq
+    refine ⟨fun _ => ?_, fun h => ?_⟩
+    · have hne : o ≠ .neg := by intro h; subst h; simp [Op.isCmp] at ho
+      simp only [foldOp, hne, if_false]
+      exact fold_cmp_all o ho signed n lt rt lv rv hc
+    · rw [ho] at h; exact absurd h (by decide)
+  have divc : ∀ o : Op, (o = .div ∨ o = .mod) → o = op →
+      divWide signed n (.int lt lv) (.int rt rv) = true → sameKind (.int lt lv) (.int rt rv) = true →
+      (op.isCmp = true → foldOp op (.int lt lv) (.int rt rv) =
+          .ok (.bool (circuitCmp op signed (seenBV n (.int lt lv)) (seenBV n (.int rt rv))))) ∧
+      (op.isCmp = false → ∃ t v, foldOp op (.int lt lv) (.int rt rv) = .ok (.int t v) ∧
+        seenBV n (.int t v) = circuitOp op signed (seenBV n (.int lt lv)) (seenBV n (.int rt rv)) cnt.toNat) := by
+    intro o ho heq hd hk
+    subst heq
+    have hk' : lt.kind = rt.kind := by simpa [sameKind] using hk
+    have hnr' : n ≤ rt.bits := by
+      rcases hnr with h | h | h
+      · rcases ho with h' | h' <;> subst h' <;> simp [Op.isShift] at h
+      · rcases ho with h' | h' <;> subst h' <;> simp at h
+      · exact h
+    refine ⟨fun h => ?_, fun _ => ?_⟩
+    · rcases ho with h' | h' <;> subst h' <;> simp [Op.isCmp] at h
+    · obtain ⟨t, v, h1, _, h3⟩ := fold_div_mod_wide o ho signed n cnt.toNat lt rt lv rv hk' hL hnl hnr' hd
+      have hne : o ≠ .neg := by rcases ho with h' | h' <;> subst h' <;> simp
+      exact ⟨t, v, by simp [foldOp, hne, h1], h3⟩
+  cases op with
+  | add => simp only [List.append_eq_nil_iff] at hrest; exact wrap .add rfl rfl (ite_nil hrest.1) (ite_nil hrest.2)
+  | sub => simp only [List.append_eq_nil_iff] at hrest; exact wrap .sub rfl rfl (ite_nil hrest.1) (ite_nil hrest.2)
+  | mul => simp only [List.append_eq_nil_iff] at hrest; exact wrap .mul rfl rfl (ite_nil hrest.1) (ite_nil hrest.2)
+  | band => simp only [List.append_eq_nil_iff] at hrest; exact wrap .band rfl rfl (ite_nil hrest.1) (ite_nil hrest.2)
+  | bor => simp only [List.append_eq_nil_iff] at hrest; exact wrap .bor rfl rfl (ite_nil hrest.1) (ite_nil hrest.2)
+  | bxor => simp only [List.append_eq_nil_iff] at hrest; exact wrap .bxor rfl rfl (ite_nil hrest.1) (ite_nil hrest.2)
+  | bclr => simp only [List.append_eq_nil_iff] at hrest; exact wrap .bclr rfl rfl (ite_nil hrest.1) (ite_nil hrest.2)
+  | div => simp only [List.append_eq_nil_iff] at hrest; exact divc .div (Or.inl rfl) rfl (ite_nil hrest.1) (ite_nil hrest.2)
+  | mod => simp only [List.append_eq_nil_iff] at hrest; exact divc .mod (Or.inr rfl) rfl (ite_nil hrest.1) (ite_nil hrest.2)
+  | shl =>
+    refine ⟨fun h => by simp [Op.isCmp] at h, fun _ => ?_⟩
+    obtain ⟨t, v, h1, _, _, _, h5⟩ := fold_shl_wide signed n lt rt lv rv cnt (hcnt rfl) hL hnl (ite_nil hrest)
+    exact ⟨t, v, by simp [foldOp, h1], h5⟩
+  | shr =>
+    refine ⟨fun h => by simp [Op.isCmp] at h, fun _ => ?_⟩
+    obtain ⟨t, v, h1, _, h3⟩ := fold_shr_wide signed n lt rt lv rv cnt (hcnt rfl) hL hnl (ite_nil hrest)
+    exact ⟨t, v, by simp [foldOp, h1], h3⟩
+  | lt => exact cmpc .lt rfl rfl (ite_nil hrest)
+  | le => exact cmpc .le rfl rfl (ite_nil hrest)
+  | gt => exact cmpc .gt rfl rfl (ite_nil hrest)
+  | ge => exact cmpc .ge rfl rfl (ite_nil hrest)
+  | eq => exact cmpc .eq rfl rfl (ite_nil hrest)
+  | ne => exact cmpc .ne rfl rfl (ite_nil hrest)
+  | neg =>
+    refine ⟨fun h => by simp [Op.isCmp] at h, fun _ => ?_⟩
+    obtain ⟨t, v, h1, _, _, _, h5⟩ := fold_neg_wide signed n cnt.toNat lt lv hL hnl (ite_nil hrest)
+    refine ⟨t, v, by simp [foldOp, h1], ?_⟩
+    rw [h5]; simp [circuitOp]
+  | lnot => simp at hrest
+  | land => simp at hrest
+  | lor => simp at hrest
 
 /-- `C12_fold_eq_circuit_partial`: whenever the decidable predicate `hyps` (evaluated by the check for every
 generated case on the constants the MODEL builds, the model being compared with the real compiler line by
 line) reports no violated hypothesis, the integer operator `op` folds without error and the low `n` wires of
 the result equal the run-time instruction on the low `n` wires of the operands; comparisons fold to the
-comparator's output.  Missing for the full statement: `n > 64`, and the regions named by `hyps`. -/
+comparator's output — for EVERY width `n` (small path `n ≤ 64`, large path `n > 64`).  Missing for the full
+statement: exactly the regions named by `hyps` (see `C12_fold_eq_circuit` for them as explicit hypotheses). -/
 theorem C12_fold_eq_circuit_partial (op : Op) (signed : Bool) (n : Nat) (l r : CV) (cnt : BitVec 64) (hn0 : 0 < n)
     (hcov : hyps op signed n l r = [])
     (hcnt : op.isShift = true → (mpaOf r).int64 = some cnt) :
@@ -316,7 +427,7 @@ theorem C12_fold_eq_circuit_partial (op : Op) (signed : Bool) (n : Nat) (l r : C
   unfold hyps at hcov
   by_cases hw : n > 64
   · rw [if_pos hw] at hcov
-    exact absurd hcov (hypsWide_ne_nil _ _ _ _ _)
+    exact C12_fold_eq_circuit_wide op signed n l r cnt hcov hcnt
   rw [if_neg hw] at hcov
   have hn64 : n ≤ 64 := by omega
   simp only [List.append_eq_nil_iff] at hcov
@@ -402,6 +513,186 @@ theorem C12_fold_eq_circuit_partial (op : Op) (signed : Bool) (n : Nat) (l r : C
   | lnot => simp at hrest
   | land => simp at hrest
   | lor => simp at hrest
+
+/-! ## The summary theorem -/
+
+/-- Typing invariants of the operand constants (true of every constant the compiler builds for a representable
+value; no finding lives here): small path — `mpa` and type sizes in 1..64, types at least `n` bits; large path —
+left type wider than 64 bits, types at least `n` bits. -/
+def wellTyped (op : Op) (n : Nat) (l r : CV) : Bool :=
+  if n ≤ 64 then smallOperand n l && (op == .neg || smallOperand (if op.isShift then 0 else n) r)
+  else typesWide op n l r
+
+theorem cmpAgrees_small {signed : Bool} {n : Nat} {l r : CV} (hl : smallOperand n l = true)
+    (hr : smallOperand n r = true) (h : cmpAgrees signed n l r = true) :
+    int64Agrees signed n l = true ∧ int64Agrees signed n r = true := by
+  obtain ⟨lt, lv, rfl, _, hlv, _, _⟩ := smallOperand_spec hl
+  obtain ⟨rt, rv, rfl, _, hrv, _, _⟩ := smallOperand_spec hr
+  have hls : lv.isSmall = true := by simp [MInt.isSmall, hlv]
+  have hrs : rv.isSmall = true := by simp [MInt.isSmall, hrv]
+  simpa [cmpAgrees, mpaOf, hls, hrs] using h
+
+/-- **C12_fold_eq_circuit** — the summary theorem: every integer operator of the property
+(`+ - * / % & | ^ &^ << >> < <= > >= == !=`, unary `-`; the boolean ones are `C12_fold_bool_ops`), every
+signedness, EVERY width `n ≥ 1` (no upper bound), all operand constants: folding succeeds and the low `n` wires of
+the folded constant are the run-time instruction on the operands' low `n` wires (comparisons: the folded boolean
+is the comparator's output).
+
+The first five hypotheses are typing facts about constants (`hn0 h_op h_typed h_kind h_count`; no finding lives
+there: they hold for every constant the compiler builds from a representable value).  The other four are
+exactly the OPEN ROOT CAUSES of known_findings.json — each is false on the witness named next to it:
+
+* `h_image`  (large path only) the operand's big image is the number its wires show —
+  C12-typed-negative-constant-not-extended (`C12_operand_cast_witness`; on the small path this root cause only
+  affects what the operand's wires ARE, not the operator);
+* `h_divmod` operands held as exact non-negative numbers (small: `cleanNonneg`; large: `divWide`, which also asks
+  them to be below half the divider size and the divisor not to be zero) —
+  C12-div-mod-masked-operands (`C12_div_mod_masked_operands_witness`), C12-wide-div-mod (`C12_wide_witnesses`);
+* `h_shr`    the shifted operand is held sign/zero-extended (small: `extended`; large: `extendedWide`) —
+  C12-rsh-on-masked-operand, C12-refold-rsh (`C12_shr_witness`, `C12_refold_shr_witness`), C12-wide-rsh;
+* `h_cmp`    `Cmp` sees the typed values (`cmpAgrees`: `Int64()` resp. `signed(bits-1)` of both operands) —
+  C12-cmp-sign-from-mpa-size (`C12_cmp_sign_from_size_witness`), C12-wide-cmp (`C12_wide_witnesses`).
+
+The remaining open findings are not about the low `n` wires of the result but about its TYPE, hence outside
+this statement: C12-result-typed-by-size / C12-result-not-wrapped-rejected (`Generator.Constant` widens the result
+type: `C12_result_type_widened_witness`, `C12_result_minbits_witness`) and
+C12-rewidened-constant-sign-from-mpa-size (`C12_rewiden_witness`). -/
+theorem C12_fold_eq_circuit (op : Op) (signed : Bool) (n : Nat) (l r : CV) (cnt : BitVec 64)
+    (hn0 : 0 < n)
+    (h_op : op ≠ .lnot ∧ op ≠ .land ∧ op ≠ .lor)
+    (h_typed : wellTyped op n l r = true)
+    (h_kind : op.isArith = true → sameKind l r = true)
+    (h_count : op.isShift = true → (mpaOf r).int64 = some cnt)
+    (h_image : 64 < n → (op.isWrap = true ∨ op = .shl ∨ op = .neg) →
+      imageExact l = true ∧ (op.isWrap = true → imageExact r = true))
+    (h_divmod : (op = .div ∨ op = .mod) →
+      if n ≤ 64 then (cleanNonneg signed n l && cleanNonneg signed n r) = true else divWide signed n l r = true)
+    (h_shr : op = .shr → if n ≤ 64 then extended signed n l = true else extendedWide signed n l = true)
+    (h_cmp : op.isCmp = true → cmpAgrees signed n l r = true) :
+    (op.isCmp = true → foldOp op l r = .ok (.bool (circuitCmp op signed (seenBV n l) (seenBV n r)))) ∧
+    (op.isCmp = false → ∃ t v, foldOp op l r = .ok (.int t v) ∧
+        seenBV n (.int t v) = circuitOp op signed (seenBV n l) (seenBV n r) cnt.toNat) := by
+  apply C12_fold_eq_circuit_partial op signed n l r cnt hn0 _ h_count
+  unfold hyps
+  by_cases hw : n > 64
+  · rw [if_pos hw]
+    have hnle : ¬ n ≤ 64 := by omega
+    simp only [wellTyped, hnle, if_false] at h_typed
+    simp only [hnle, if_false] at h_divmod h_shr
+    unfold hypsWide
+    simp only [h_typed, if_true, List.nil_append]
+    cases op <;> simp [Op.isWrap, Op.isArith, Op.isCmp] at h_op h_kind h_image h_divmod h_shr h_cmp ⊢ <;>
+      simp_all
+  · rw [if_neg hw]
+    have hnle : n ≤ 64 := by omega
+    simp only [wellTyped, hnle, if_true] at h_typed
+    simp only [hnle, if_true] at h_divmod h_shr
+    simp only [h_typed, if_true, List.nil_append]
+    have hsplit := h_typed
+    simp only [Bool.and_eq_true, Bool.or_eq_true, beq_iff_eq] at hsplit
+    cases op <;> simp [Op.isArith, Op.isCmp, Op.isShift] at h_op h_kind h_divmod h_shr h_cmp hsplit ⊢ <;>
+      first
+      | exact cmpAgrees_small hsplit.1 hsplit.2 h_cmp
+      | simp_all
+
+/-- `+ - * & | ^ &^` for EVERY width (no `n ≤ 64`): corollary of the summary theorem; on the large path the only
+hypothesis beyond typing is that both operands have exact images. -/
+theorem C12_fold_wrap_every_width (op : Op) (hop : op.isWrap = true) (signed : Bool) (n : Nat) (l r : CV) (hn0 : 0 < n)
+    (h_typed : wellTyped op n l r = true) (h_kind : sameKind l r = true)
+    (h_image : 64 < n → imageExact l = true ∧ imageExact r = true) :
+    ∃ t v, evalBin op l r = .ok (.int t v) ∧
+      seenBV n (.int t v) = circuitOp op signed (seenBV n l) (seenBV n r) 0 := by
+  have hne : op ≠ .neg := by intro h; subst h; simp [Op.isWrap] at hop
+  have h := (C12_fold_eq_circuit op signed n l r 0#64 hn0
+    (by cases op <;> simp [Op.isWrap] at hop ⊢) h_typed (fun _ => h_kind)
+    (by cases op <;> simp [Op.isWrap, Op.isShift] at hop ⊢)
+    (fun hw _ => ⟨(h_image hw).1, fun _ => (h_image hw).2⟩)
+    (by cases op <;> simp [Op.isWrap] at hop ⊢) (by cases op <;> simp [Op.isWrap] at hop ⊢)
+    (by cases op <;> simp [Op.isWrap, Op.isCmp] at hop ⊢)).2 (by cases op <;> simp [Op.isWrap, Op.isCmp] at hop ⊢)
+  simpa [foldOp, hne] using h
+
+theorem C12_fold_add_every_width (signed : Bool) (n : Nat) (l r : CV) (hn0 : 0 < n)
+    (h_typed : wellTyped .add n l r = true) (h_kind : sameKind l r = true)
+    (h_image : 64 < n → imageExact l = true ∧ imageExact r = true) :
+    ∃ t v, evalBin .add l r = .ok (.int t v) ∧
+      seenBV n (.int t v) = circuitOp .add signed (seenBV n l) (seenBV n r) 0 :=
+  C12_fold_wrap_every_width .add rfl signed n l r hn0 h_typed h_kind h_image
+theorem C12_fold_sub_every_width (signed : Bool) (n : Nat) (l r : CV) (hn0 : 0 < n)
+    (h_typed : wellTyped .sub n l r = true) (h_kind : sameKind l r = true)
+    (h_image : 64 < n → imageExact l = true ∧ imageExact r = true) :
+    ∃ t v, evalBin .sub l r = .ok (.int t v) ∧
+      seenBV n (.int t v) = circuitOp .sub signed (seenBV n l) (seenBV n r) 0 :=
+  C12_fold_wrap_every_width .sub rfl signed n l r hn0 h_typed h_kind h_image
+theorem C12_fold_mul_every_width (signed : Bool) (n : Nat) (l r : CV) (hn0 : 0 < n)
+    (h_typed : wellTyped .mul n l r = true) (h_kind : sameKind l r = true)
+    (h_image : 64 < n → imageExact l = true ∧ imageExact r = true) :
+    ∃ t v, evalBin .mul l r = .ok (.int t v) ∧
+      seenBV n (.int t v) = circuitOp .mul signed (seenBV n l) (seenBV n r) 0 :=
+  C12_fold_wrap_every_width .mul rfl signed n l r hn0 h_typed h_kind h_image
+theorem C12_fold_and_every_width (signed : Bool) (n : Nat) (l r : CV) (hn0 : 0 < n)
+    (h_typed : wellTyped .band n l r = true) (h_kind : sameKind l r = true)
+    (h_image : 64 < n → imageExact l = true ∧ imageExact r = true) :
+    ∃ t v, evalBin .band l r = .ok (.int t v) ∧
+      seenBV n (.int t v) = circuitOp .band signed (seenBV n l) (seenBV n r) 0 :=
+  C12_fold_wrap_every_width .band rfl signed n l r hn0 h_typed h_kind h_image
+theorem C12_fold_or_every_width (signed : Bool) (n : Nat) (l r : CV) (hn0 : 0 < n)
+    (h_typed : wellTyped .bor n l r = true) (h_kind : sameKind l r = true)
+    (h_image : 64 < n → imageExact l = true ∧ imageExact r = true) :
+    ∃ t v, evalBin .bor l r = .ok (.int t v) ∧
+      seenBV n (.int t v) = circuitOp .bor signed (seenBV n l) (seenBV n r) 0 :=
+  C12_fold_wrap_every_width .bor rfl signed n l r hn0 h_typed h_kind h_image
+theorem C12_fold_xor_every_width (signed : Bool) (n : Nat) (l r : CV) (hn0 : 0 < n)
+    (h_typed : wellTyped .bxor n l r = true) (h_kind : sameKind l r = true)
+    (h_image : 64 < n → imageExact l = true ∧ imageExact r = true) :
+    ∃ t v, evalBin .bxor l r = .ok (.int t v) ∧
+      seenBV n (.int t v) = circuitOp .bxor signed (seenBV n l) (seenBV n r) 0 :=
+  C12_fold_wrap_every_width .bxor rfl signed n l r hn0 h_typed h_kind h_image
+theorem C12_fold_andnot_every_width (signed : Bool) (n : Nat) (l r : CV) (hn0 : 0 < n)
+    (h_typed : wellTyped .bclr n l r = true) (h_kind : sameKind l r = true)
+    (h_image : 64 < n → imageExact l = true ∧ imageExact r = true) :
+    ∃ t v, evalBin .bclr l r = .ok (.int t v) ∧
+      seenBV n (.int t v) = circuitOp .bclr signed (seenBV n l) (seenBV n r) 0 :=
+  C12_fold_wrap_every_width .bclr rfl signed n l r hn0 h_typed h_kind h_image
+
+/-- `<<` for EVERY width. -/
+theorem C12_fold_shl_every_width (signed : Bool) (n : Nat) (l r : CV) (cnt : BitVec 64) (hn0 : 0 < n)
+    (h_typed : wellTyped .shl n l r = true) (h_count : (mpaOf r).int64 = some cnt)
+    (h_image : 64 < n → imageExact l = true) :
+    ∃ t v, evalBin .shl l r = .ok (.int t v) ∧
+      seenBV n (.int t v) = circuitOp .shl signed (seenBV n l) (seenBV n r) cnt.toNat := by
+  have h := (C12_fold_eq_circuit .shl signed n l r cnt hn0 (by simp) h_typed (by simp [Op.isArith])
+    (fun _ => h_count) (fun hw _ => ⟨h_image hw, by simp [Op.isWrap]⟩) (by simp) (by simp) (by simp [Op.isCmp])).2
+    (by simp [Op.isCmp])
+  simpa [foldOp] using h
+
+/-! ### Non-vacuity: every hypothesis of `C12_fold_eq_circuit` is satisfiable below and above 64 bits
+(`caseHyps … = []` says that ALL hypotheses hold for the constants the model builds for that program text) -/
+
+-- h_typed / h_kind / h_image (wrap operators, `<<`, unary minus)
+example : caseHyps .add .uint 8 200 100 .pos .pos = [] ∧ caseHyps .add .uint 128 (2 ^ 128 - 1) 1 .pos .pos = [] := by
+  decide +kernel
+example : caseHyps .mul .int 33 (-5) 9 .neg .pos = [] ∧ caseHyps .mul .int 100 (-5) (2 ^ 70 + 1) .neg .pos = [] := by
+  decide +kernel
+example : caseHyps .bclr .int 64 (-5) 9 .neg .pos = [] ∧ caseHyps .bxor .int 65 (-(2 ^ 64)) (2 ^ 64 - 1) .neg .pos = [] := by
+  decide +kernel
+example : caseHyps .shl .uint 32 1 31 .pos .pos = [] ∧ caseHyps .shl .uint 130 (2 ^ 65 + 1) 64 .pos .pos = [] := by
+  decide +kernel
+example : caseHyps .neg .int 8 (-128) 0 .cast .pos = [] ∧ caseHyps .neg .int 127 (2 ^ 100) 0 .pos .pos = [] := by
+  decide +kernel
+-- h_divmod
+example : caseHyps .div .int 32 43 4 .pos .pos = [] ∧ caseHyps .mod .uint 128 (2 ^ 62 + 5) 7 .pos .pos = [] := by
+  decide +kernel
+-- h_shr
+example : caseHyps .shr .int 64 (-128) 3 .neg .pos = [] ∧ caseHyps .shr .uint 128 (2 ^ 127 + 1) 65 .pos .pos = [] := by
+  decide +kernel
+-- h_cmp
+example : caseHyps .lt .int 8 (-2) 2 .cast .pos = [] ∧ caseHyps .ge .uint 100 (2 ^ 40) 7 .pos .pos = [] := by
+  decide +kernel
+-- the hypotheses themselves, on explicit constants (uint128(5) + uint128(7))
+example :
+    wellTyped .add 128 (.int ⟨.uint, 128, 3⟩ { bits := 32, i64 := 5#64 }) (.int ⟨.uint, 128, 3⟩ { bits := 32, i64 := 7#64 }) = true ∧
+    imageExact (.int ⟨.uint, 128, 3⟩ { bits := 32, i64 := 5#64 }) = true := by
+  decide +kernel
 
 -- non-vacuity: the region is inhabited for every operator (cases the generator produces)
 example : caseHyps .bxor .int 64 (-9223372036854775808) 9223372036854775807 .neg .pos = [] := by decide +kernel
@@ -555,7 +846,8 @@ theorem lsh_rsh_some (z x : MInt) (n : Nat) (a : Bool) : (∃ m, Mpa.lsh z x n =
     simp only [Mpa.lsh, Mpa.rsh, hs, if_true]
     exact ⟨setSmall_some _ _ h64, setSmall_some _ _ h64⟩
   · simp only [Mpa.lsh, Mpa.rsh, hs, Bool.false_eq_true, if_false]
-    exact ⟨⟨_, rfl⟩, ⟨_, rfl⟩⟩
+    refine ⟨?_, ⟨_, rfl⟩⟩
+    split <;> exact ⟨_, rfl⟩
 
 /-- Type and `mpa` sizes of an integer constant are positive (true of every constant the compiler builds:
 `New(0)` panics, `Generator.Constant` sizes at least 32). -/
